@@ -354,6 +354,70 @@ mut('C08', 'zincdumper', """    str_value = CTRL_META.sub(ctrl_sub, str_value)
 """, "", name='revert fix: control characters raw')
 mut('C08', 'zincdumper', "    elif c in '\\\\\"$':\n        return '\\\\%s' % c", "    elif c in '\\\\\"':\n        return '\\\\%s' % c", name='str_sub forgets $ (deleted)')
 
+# ---- C01 / C04 ---------------------------------------------------------------------
+LADDER_STR = """    elif isinstance(scalar, six.string_types):
+        return dump_str(scalar, version=version)
+"""
+LADDER_URI = """    elif isinstance(scalar, Uri):
+        return dump_uri(scalar, version=version)
+"""
+mut('C01', 'zincdumper', LADDER_URI + LADDER_STR, LADDER_STR + LADDER_URI, name='str branch before Uri')
+mut('C01', 'zincdumper', """    elif isinstance(scalar, datetime.datetime):
+        return dump_date_time(scalar, version=version)
+    elif isinstance(scalar, datetime.time):
+        return dump_time(scalar, version=version)
+    elif isinstance(scalar, datetime.date):
+        return dump_date(scalar, version=version)
+""", """    elif isinstance(scalar, datetime.date):
+        return dump_date(scalar, version=version)
+    elif isinstance(scalar, datetime.datetime):
+        return dump_date_time(scalar, version=version)
+    elif isinstance(scalar, datetime.time):
+        return dump_time(scalar, version=version)
+""", name='date branch before datetime')
+mut('C01', 'zincdumper', """    elif isinstance(scalar, Coordinate):
+        return dump_coord(scalar, version=version)
+""", "", name='Coordinate branch deleted')
+mut('C01', 'zincdumper', "        return '@%s %s' % (ref.name, dump_str(ref.value))", "        return '@%s%s' % (ref.name, dump_str(ref.value))", name='ref display without blank')
+mut('C01', 'zincdumper', "    return 'C(%f,%f)' % (coordinate.latitude, coordinate.longitude)", "    return 'C(%f;%f)' % (coordinate.latitude, coordinate.longitude)")
+mut('C01', 'zincdumper', "    return time.isoformat()", "    return time.strftime('%H:%M:%S')", name='time via strftime (drops microseconds)')
+mut('C01', 'zincdumper', """            return '-INF'
+    return str(decimal)""", """            return '-INF'
+    return '%f' % decimal""", name='numbers via %f')
+mut('C01', 'zincdumper', "    return '\\n'.join([header, columns] + rows + [''])", "    return '\\n'.join([header, columns] + rows)", name='no final newline')
+mut('C01', 'zincdumper', "    return '\\n'.join([header, columns] + rows + [''])", "    return ''.join([header, columns] + rows + [''])", name='rows joined with nothing')
+mut('C01', 'zincdumper', "    return ','.join(map(_dump, *_cols))", "    return ';'.join(map(_dump, *_cols))", name='columns joined with ;')
+mut('C01', 'zincdumper', "        return '%s:%s' % (dump_id(item_id, version=version), \\\n", "        return '%s=%s' % (dump_id(item_id, version=version), \\\n", name='meta pair with =')
+mut('C01', 'zincdumper', "    return '%s %s' % (date_time.isoformat(), tz_name)", "    return '%s%s' % (date_time.isoformat(), tz_name)", name='datetime without blank before zone')
+mut('C01', 'zincdumper', """        elif decimal == float('inf'):
+            return 'INF'""", """        elif decimal == float('inf'):
+            return 'Inf'""", name='INF misspelt')
+mut('C01', 'zincdumper', """        if decimal != decimal:
+            return 'NaN'
+        elif""", """        if False:
+            return 'NaN'
+        elif""", name='revert fix: nan')
+mut('C01', 'zincdumper', "        return '{' + ' '.join([k + ':' + dump_scalar(v, version=version) for (k, v) in scalar.items()]) + '}'", "        return '{' + ','.join([k + ':' + dump_scalar(v, version=version) for (k, v) in scalar.items()]) + '}'", name='dict items joined with comma')
+mut('C01', 'zincdumper', "        return \"<<\" + dump_grid(scalar) + \">>\"", "        return \"<\" + dump_grid(scalar) + \">\"", name='nested grid single brackets')
+mut('C01', 'zincparser', "hs_tzName = Regex(r'[A-Z][a-zA-Z0-9_\\-]*')", "hs_tzName = Regex(r'[A-Z][a-z_]*')", name='reader zone names without digits/caps')
+mut('C01', 'zincparser', "hs_refChar = Or([hs_alpha, hs_digit, Word('_:-.~', exact=1)])", "hs_refChar = Or([hs_alpha, hs_digit, Word('_:-.', exact=1)])", name='reader refChar loses ~')
+mut('C01', 'zincparser', "hs_scalar_2_0 <<= Or([hs_ref, hs_bin, hs_str, hs_uri, hs_dateTime,", "hs_scalar_2_0 <<= Or([hs_ref, hs_bin, hs_str, hs_uri,", name='2.0 grammar loses dateTime')
+mut('C01', 'zincparser', "    g.extend(map(lambda row: dict(zip(col_meta.keys(), row)), rows))", "    g.extend(map(lambda row: dict(zip(sorted(col_meta.keys()), row)), rows))", name='cells zipped onto sorted names')
+mut('C01', 'zincparser', "hs_bool = Word('TF', min=1, max=1, exact=1).setParseAction( \\\n    lambda toks: [toks[0] == 'T'])", "hs_bool = Word('TF', min=1, max=1, exact=1).setParseAction( \\\n    lambda toks: [toks[0]])", name='reader bool yields text')
+mut('C01', 'dumper', "        return '\\n'.join(map(_dump, grids))", "        return ''.join(map(_dump, grids))", name='grids joined without blank line')
+mut('C01', 'zincdumper', "    return 'T' if bool(bool_value) else 'F'", "    return 'T' if bool(bool_value) else 'N'", name='False written as N')
+mut('C04', 'zincdumper', """        elif decimal == float('inf'):
+            return 'INF'""", """        elif decimal == float('inf'):
+            return 'Inf'""", name='INF misspelt')
+mut('C04', 'zincdumper', """    if Version.nearest(version) < VER_3_0:
+        return 'Bin(%s)' % bin_value
+""", "", name='2.0 Bin written in 3.0 form')
+mut('C04', 'zincdumper', "        return '\\\\u%04x' % o\n    elif c in '\\\\\"$':", "        return '\\\\U%04x' % o\n    elif c in '\\\\\"$':", name='\\U escape (reader lenient, spec not)')
+mut('C04', 'zincdumper', "    return ','.join([dump_scalar(row.get(c), version=grid.version) for \\\n                     c in list(grid.column.keys())])", "    return ','.join([dump_scalar(row.get(c), version=grid.version) for \\\n                     c in list(row.keys())])", name='row ranges over its own keys')
+mut('C04', 'zincdumper', "    header = 'ver:%s' % dump_str(str(grid._version), version=grid._version)", "    header = 'ver:%s' % str(grid._version)", name='header version unquoted')
+mut('C04', 'zincdumper', "    return 'C(%f,%f)' % (coordinate.latitude, coordinate.longitude)", "    return 'C(%s,%s)' % (coordinate.latitude, coordinate.longitude)", name='coordinate via str (exponent forms)')
+mut('C04', 'zincdumper', "    uri_value = CTRL_META.sub(ctrl_sub, uri_value)", "    for orig, esc in STR_SUB:\n        uri_value = uri_value.replace(orig, esc)\n    uri_value = CTRL_META.sub(ctrl_sub, uri_value)", name='URI with \\n escapes (not in the grammar)')
+
 
 def run(selected):
     base_cache = {}
